@@ -360,6 +360,17 @@ def _gen_case(rng, tier, i):
             ops.append(["serxml", m_, ts])
         elif kind == "serdoc":
             ops.append(["serdoc", mgr(), rng.choice(DOC_FORMATS), _doc_triples(rng, absns, counter, rng.randint(1, 4))])
+    if rng.random() < 0.05:
+        # `ns<k>` bound to the empty IRI: falsy but not None — the `ns<k>` loops of compute_qname(_strict) take it for free,
+        # and binding it anew unbinds the empty namespace (the shape excluded by xml_names_expand_partial)
+        k_ = rng.randint(0, len(ops) // 2)
+        ops.insert(k_, ["bind", 0, rng.choice(["ns1", "ns1", "ns2"]), "", True, rng.random() < 0.5])
+        # … followed, sooner or later, by a strict computation that has to invent a prefix (local name `1a`: the strict
+        # split moves the digit into the namespace)
+        u_ = rng.choice(absns) + rng.choice(["1a", "٣x"])
+        ops.insert(rng.randint(k_ + 1, len(ops)), ["qstrict", 0, u_] if rng.random() < 0.5 else ["cqs", 0, u_, True])
+        if "" not in vn:
+            vn.append("")
     case = {"cfg": cfg, "bn": bn, "bn1": bn1, "vp": vp, "vn": vn, "ops": ops}
     if cfg == "foreign":
         case.update(_foreign_fields(rng))
